@@ -44,6 +44,9 @@ var waitT = 3 * time.Second // bound of every wait; reached only when the server
 const keepAlivePeriod = 15 * time.Second
 const tickMargin = 1500 * time.Millisecond
 
+// connectionSendBufferSize of both transports
+const queueCapacity = 100
+
 type source struct {
 	idx     int
 	n       int // operation number that created it
@@ -58,6 +61,8 @@ type world struct {
 	// gate: handler calls of gated frames signal entered and block until the harness closes gate
 	gate     chan struct{}
 	entered  chan struct{}
+	// handler calls that waited for the cancellation of their context only and saw it
+	sawCancel int32
 	mu       sync.Mutex
 	execs    []sexp.Node
 	sources  []*source
@@ -157,6 +162,42 @@ func newAPI(w *world) *apifu.API {
 		case <-time.After(20 * waitT):
 		}
 	}
+	// a handler call that returns only when its context is cancelled (a resolver waiting for a backend
+	// with the request's context); the bound is a safety net for the harness, far beyond every wait
+	waitCancel := func(ctx context.Context) {
+		w.entered <- struct{}{}
+		select {
+		case <-ctx.Done():
+			atomic.AddInt32(&w.sawCancel, 1)
+		case <-time.After(20 * waitT):
+		}
+	}
+	cfg.AddQueryField("qc", &graphql.FieldDefinition{Type: graphql.IntType, Arguments: nArg,
+		Resolve: func(ctx graphql.FieldContext) (interface{}, error) {
+			waitCancel(ctx.Context)
+			return argN(ctx), nil
+		}})
+	cfg.AddSubscription("sc", &graphql.FieldDefinition{Type: graphql.IntType, Arguments: nArg,
+		Resolve: func(ctx graphql.FieldContext) (interface{}, error) {
+			if ctx.IsSubscribe {
+				n := argN(ctx)
+				w.mu.Lock()
+				src := &source{idx: len(w.sources), n: n, ch: make(chan int), stopped: make(chan struct{})}
+				w.sources = append(w.sources, src)
+				w.execs = append(w.execs, sexp.T("sub", sexp.Int(n)))
+				w.mu.Unlock()
+				waitCancel(ctx.Context)
+				return &apifu.SubscriptionSourceStream{
+					EventChannel: src.ch,
+					Stop: func() {
+						if atomic.AddInt32(&src.stops, 1) == 1 {
+							close(src.stopped)
+						}
+					},
+				}, nil
+			}
+			return ctx.Object, nil
+		}})
 	cfg.AddQueryField("qg", &graphql.FieldDefinition{Type: graphql.IntType, Arguments: nArg,
 		Resolve: func(ctx graphql.FieldContext) (interface{}, error) {
 			waitGate()
@@ -194,15 +235,20 @@ func newAPI(w *world) *apifu.API {
 	cfg.HandleGraphQLWSInit = func(ctx context.Context, p json.RawMessage) (context.Context, error) {
 		var v struct {
 			Reject bool `json:"reject"`
-			Gate   bool `json:"gate"`
+			Gate    bool `json:"gate"`
+			GateCtx bool `json:"gatectx"`
 		}
 		_ = json.Unmarshal(p, &v)
-		if v.Gate {
+		if v.Gate || v.GateCtx {
 			w.mu.Lock()
 			w.initOK++
 			w.execs = append(w.execs, sexp.T("init", sexp.Bool(true)))
 			w.mu.Unlock()
-			waitGate()
+			if v.GateCtx {
+				waitCancel(ctx)
+			} else {
+				waitGate()
+			}
 			return ctx, nil
 		}
 		w.mu.Lock()
@@ -293,6 +339,20 @@ type Script struct {
 	// (CloseHijackedConnections), the write loop's wait for the peer's close passes (1 s), then the gate
 	// is opened.
 	Gate *Label
+	// GateCtx: the gated handler call waits for the cancellation of its context only; the harness opens
+	// nothing: the application's Close() must return (and the call must have seen the cancellation)
+	// within the harness's bound.
+	GateCtx bool
+	// GateDrop (with GateCtx): instead of the application closing the connection, the client drops the TCP
+	// connection while the handler call waits for its cancellation; the server notices when a write fails
+	// (the second keep-alive after the drop at the latest) and must then cancel the handler context.
+	GateDrop bool
+	// Full: after the labels (which start at least one subscription) this frame makes the server begin
+	// closing; the harness does not answer the close frame, so the write loop sits in its 1 s wait and
+	// drains nothing; meanwhile the first source delivers events until the goroutine blocks on the full
+	// outgoing queue, then the client sends one more query (the read loop blocks on the queue as well);
+	// after 1 s the write loop exits: everybody blocked on the queue must be released.
+	Full *Label
 }
 
 type Result struct {
@@ -779,6 +839,7 @@ func runConversation(tag string, sc Script) (res Result) {
 		cv.waitTerm("close-after-pipe")
 	}
 	gateClosed := false
+	gateDropped := false
 	var gateDone chan struct{}
 	if sc.Gate != nil && !cv.term {
 		flush()
@@ -787,6 +848,7 @@ func runConversation(tag string, sc Script) (res Result) {
 		res.Lenient = n
 		l := *sc.Gate
 		l.Gated = true
+		l.GateCtx = sc.GateCtx
 		performed = append(performed, l)
 		cv.log = append(cv.log, sexp.T("sent", sexp.Int(n)))
 		data, _ := l.wire(n)
@@ -801,17 +863,89 @@ func runConversation(tag string, sc Script) (res Result) {
 			t.Stop()
 		}
 		obs = append(obs, snapshot())
-		// the application closes the connection while the handler call is blocked
-		gateDone = make(chan struct{})
-		go func() { api.CloseHijackedConnections(); close(gateDone) }()
-		if cv.waitTerm("close-from-application-during-handler") {
-			cv.log = append(cv.log, sexp.T("f", SFrame{Kind: "closed", Code: cv.termCode}.sexp()))
+		if sc.GateDrop {
+			atomic.StoreInt32(&clientClosing, 1)
+			c.UnderlyingConn().Close()
+			deadline := time.Now().Add(2*keepAlivePeriod + 2*tickMargin)
+			for atomic.LoadInt32(&w.sawCancel) == 0 && time.Now().Before(deadline) {
+				time.Sleep(20 * time.Millisecond)
+			}
+			if atomic.LoadInt32(&w.sawCancel) == 0 {
+				cv.stall = append(cv.stall, "handler-context-not-cancelled")
+			}
+			gateDropped = true
+		} else {
+			// the application closes the connection while the handler call is blocked
+			gateDone = make(chan struct{})
+			go func() { api.CloseHijackedConnections(); close(gateDone) }()
+			if cv.waitTerm("close-from-application-during-handler") {
+				cv.log = append(cv.log, sexp.T("f", SFrame{Kind: "closed", Code: cv.termCode}.sexp()))
+			}
+			if !sc.GateCtx {
+				// the read loop is not reading, so the client's answer to the close frame would not be seen:
+				// the write loop gives up waiting after 1 s, closes the socket and exits
+				time.Sleep(1300 * time.Millisecond)
+				close(w.gate)
+			}
+			gateClosed = true
 		}
-		// the read loop is not reading, so the client's answer to the close frame would not be seen:
-		// the write loop gives up waiting after 1 s, closes the socket and exits
+	}
+	if sc.Full != nil && !cv.term && len(w.sources) > 0 {
+		flush()
+		w.takeExecs()
+		first := len(performed)
+		res.Lenient = first + 1
+		l := *sc.Full
+		performed = append(performed, l)
+		cv.log = append(cv.log, sexp.T("sent", sexp.Int(first)))
+		data, _ := l.wire(first)
+		c.SetWriteDeadline(time.Now().Add(waitT))
+		c.WriteMessage(websocket.TextMessage, data)
+		cv.waitTerm("close-before-filling-the-queue") // the close frame is here: the write loop has drained and is waiting
+		obs = append(obs, snapshot())
+		src := w.source(0)
+		pushed := 0
+		for pushed < 3*queueCapacity && !src.ended && atomic.LoadInt32(&src.stops) == 0 {
+			src.emitted++
+			t := time.NewTimer(100 * time.Millisecond)
+			ok := false
+			select {
+			case src.ch <- src.n*1000 + src.emitted:
+				ok = true
+			case <-t.C:
+			}
+			t.Stop()
+			if !ok {
+				src.emitted--
+				break // the goroutine is blocked in sendMessage on the full queue
+			}
+			n := len(performed)
+			performed = append(performed, Label{Kind: lEmit, Src: 0, Op: src.n})
+			cv.log = append(cv.log, sexp.T("sent", sexp.Int(n)))
+			obs = append(obs, sexp.T("obs", sexp.T("execs"), sexp.T("nostops")))
+			pushed++
+		}
+		// one more operation: its result finds the queue full as well
+		n := len(performed)
+		q := Label{Kind: lMsg, Type: startWord, ID: 2, Pay: "doc", Doc: "query"}
+		performed = append(performed, q)
+		cv.log = append(cv.log, sexp.T("sent", sexp.Int(n)))
+		qd, _ := q.wire(n)
+		c.SetWriteDeadline(time.Now().Add(waitT))
+		c.WriteMessage(websocket.TextMessage, qd)
+		deadline := time.Now().Add(800 * time.Millisecond)
+		for time.Now().Before(deadline) {
+			w.mu.Lock()
+			got := len(w.execs) > 0
+			w.mu.Unlock()
+			if got {
+				break
+			}
+			time.Sleep(time.Millisecond)
+		}
+		obs = append(obs, sexp.T("obs", sexp.T("execs", w.takeExecs()...), sexp.T("stops", w.stopCounts()...)))
+		// the write loop's 1 s wait passes; it closes the socket and exits
 		time.Sleep(1300 * time.Millisecond)
-		close(w.gate)
-		gateClosed = true
 	}
 	if sc.Flood > 0 && !cv.term {
 		// a client that never reads: big responses fill the socket buffers and the outgoing queue
@@ -833,7 +967,9 @@ func runConversation(tag string, sc Script) (res Result) {
 	}
 
 	end := sc.End
-	if gateClosed {
+	if gateDropped {
+		end = "drop-during-handler"
+	} else if gateClosed {
 		end = "app-close-during-handler"
 	} else if cv.term {
 		end = "peer"
@@ -864,15 +1000,20 @@ func runConversation(tag string, sc Script) (res Result) {
 	}
 	cv.log = append(cv.log, sexp.T("sent", sexp.Int(len(performed))))
 	switch end {
+	case "drop-during-handler":
+		end = "drop"
 	case "app-close-during-handler":
 		replyClose()
 		t := time.NewTimer(2 * waitT)
 		select {
 		case <-gateDone:
 		case <-t.C:
-			cv.stall = append(cv.stall, "CloseHijackedConnections-blocked")
+			cv.stall = append(cv.stall, "close-not-completed")
 		}
 		t.Stop()
+		if sc.GateCtx && atomic.LoadInt32(&w.sawCancel) == 0 {
+			cv.stall = append(cv.stall, "handler-context-not-cancelled")
+		}
 		end = "app-close"
 	case "peer":
 		replyClose()
